@@ -420,7 +420,7 @@ func (p *printer) writeSExpr(v *lisp.LVal, indent int) {
 	// For data lists (non-symbol head), preserve first-child-on-new-line.
 	isCall := v.Cells[0].Type == lisp.LSymbol
 	head := v.Cells[0]
-	if m := fmtraw.Meta(head); m != nil && len(m.LeadingComments) > 0 {
+	if m := fmtraw.Meta(head); m != nil && len(m.LeadingComments) > 0 && !p.cfg.StripComments {
 		// A comment written between the opening bracket and the head is
 		// attached to the head, and neither branch below wrote it: "(\n; c\n f
 		// x)" formatted to "(f x)", DELETING it.  writeListInner has always
